@@ -164,7 +164,7 @@ class C14(Prop):
     def strategy(self, tier):
         cfg = gen_ir.Cfg(max_defs=4, max_children=3, max_width=2, max_libs=2, unnamed=True,
                          top="maybe", top_modes=["standalone", "definition", "child"], share=True,
-                         alphabet=["a", "A", "b", "c", "a_1"])
+                         alphabet=["a", "A", "b", "c", "a_1"], noref_children=True)
         return case_strategy(WEIGHTS, 30 if tier == "quick" else 80, cfg=cfg, names=NAMES,
                              own_bias=2, policies=("DEFAULT", "EDIF"))
 
